@@ -153,6 +153,9 @@ func runC16(c *Ctx) {
 	// options built in a variable shared by all connections: another client's command can
 	// replace them between their assignment and the handler call
 	ruleNoSharedCapture(c, "R16.d")
+	// MSETNX is all-or-nothing only if "the key is absent" and "the key holds an empty value" are told apart
+	ruleIsNilMeansNull(c, "R16.e")
+	rulePayloadStores(c, "R16.e")
 	c.assume("each single handler call is atomic only if the handler makes it so (R16.b checks the bundled example store)")
 }
 
